@@ -64,6 +64,17 @@ def run_ident(case):
     v = cs.values
     csca, cabs, cext, g = [float(t) for t in v]
     facts = dict(layered=nl > 1, regime="x<3" if sd["x"] < 3 else "x>=3", absorbing=absorbing)
+    # layered spheres: distance of the layer arguments from a zero of psi_n (see C02 layered_reductions: the
+    # recursion loses digits like 3e5 eps / p there, which shows here as C_abs != 0 for real indices)
+    pz = 1.0
+    if nl > 1:
+        from .c02 import _zero_proximity
+        for l in range(1, nl):
+            for z in (ms[l] * k * radii[l - 1], ms[l] * k * radii[l]):
+                pz = min(pz, _zero_proximity(z))
+        if pz < 1e-3:
+            facts["near_riccati_bessel_zero"] = True
+            labels.append("near_riccati_bessel_zero")
     if names != ["scattering", "absorbtion", "extinction", "assymetry"]:
         return Outcome(failure("labels", "unexpected cross_section labels %r" % names), True, labels)
     if not all(math.isfinite(t) for t in (csca, cabs, cext, g)):
@@ -80,9 +91,14 @@ def run_ident(case):
             return Outcome(failure("absorption_negative", "C_abs = %.6g with C_ext = %.6g (x=%.4g)" % (cabs, cext, sd["x"]), **facts), True, labels)
     else:
         met["abs_over_ext_real_index" + ("_layered_" + size_class(sd["x"]) if nl > 1 else "")] = abs(cabs) / cext if cext else float("inf")
-        if abs(cabs) > (1e-6 if nl > 1 else 1e-9) * TOLX * abs(cext):
+        # homogeneous: C_ext - C_sca cancels to roundoff.  Layered: roundoff of the recursion, 1e-9 + the 1/p law
+        # (1e7 eps / p down to p = 1e-3; closer to a zero it is the known finding, inside 1e8 eps / p)
+        lim = 1e-9 if nl == 1 else (1e-9 + 1e7 * 2.0 ** -52 / max(pz, 1e-3))
+        if nl > 1 and pz < 1e-3 and abs(cabs) > 1e8 * 2.0 ** -52 / pz * abs(cext):
+            facts.pop("near_riccati_bessel_zero", None)      # beyond the law: not the known finding
+        if abs(cabs) > lim * TOLX * abs(cext):
             return Outcome(failure("absorption_nonzero_for_real_index",
-                                   "C_abs/C_ext = %.3g (x=%.4g, layers=%d)" % (cabs / cext, sd["x"], nl), **facts), True, labels)
+                                   "C_abs/C_ext = %.3g (x=%.4g, layers=%d, distance of a layer argument from a zero of psi_n: %.2g)" % (cabs / cext, sd["x"], nl, pz), **facts), True, labels)
     # optical theorem across entry points: C_ext = 4 pi / k^2 Re S(0)
     det = hp.detector_points(theta=0.0, phi=0.0)
     S = calc_scat_matrix(det, sph, o["nm"], o["wl"], theory=Mie()).values[0]
